@@ -322,6 +322,11 @@ def finish(prop_id, tier, seed, level, proof, result, t0, design_ref=""):
         "samples": result.samples or [{"note": "no correspondence cases in this run"}],
         "known_findings_hit": sorted(known_hit.keys()),
     }
+    if cov["obligations"] < 1 or cov["discharged"] < 1:
+        # the proof side failed: fall back to the exploration-style keys only
+        cov["obligations_attempted"] = cov.pop("obligations")
+        cov["discharged_attempted"] = cov.pop("discharged")
+        cov["proof_failure"] = {"stage": proof.get("stage"), "failed_at": proof.get("failed_at")}
     cov.update(result.coverage_extra)
     ev = {
         "property_id": prop_id, "tier": tier, "seed": seed, "level": level,
